@@ -16,10 +16,11 @@ ROOT = runner.ROOT
 ALPHABET = {  # one representative per character class
     "squote": "'", "dquote": '"', "backslash": "\\", "lf": "\n", "cr": "\r", "nul": "\x00", "lbrace": "{", "rbrace": "}",
     "percent": "%", "hash": "#", "space": " ", "letter_n": "n", "letter_x": "x", "letter_a": "a", "digit": "0",
-    "nonascii": "\u00e9", "linesep": "\u2028", "astral": "\U0001F600",
+    "nonascii": "\u00e9", "linesep": "\u2028", "astral": "\U0001F600", "compat_micro": "\u00b5", "compat_sup2": "\u00b2",
+    "tab": "\t",
 }
 POSITIONS = ["metadata_alias", "annotated_alias", "config_alias", "typeddict_key", "discriminator_field",
-             "forbid_extra_keys", "literal_str", "str_default_omit", "literal_bytes"]
+             "forbid_extra_keys", "discriminator_forbid", "literal_str", "literal_pair", "str_default_omit", "literal_bytes"]
 ASSUMPTIONS = [
     "ZS = z3 5.1.0 string theory; the quantifier is over strings s with |s| <= N (N = 4 quick, 6 thorough) over an alphabet with "
     "one representative per character class: ' \" \\ LF CR NUL { } % # space n x a 0 e-acute U+2028 and an astral character",
@@ -108,6 +109,21 @@ def build(position, s):
         A = dataclasses.make_dataclass("A", [("w", int, field(default=1))], bases=(B,), namespace={s: "tag-a"})
         B._A = A
         return B
+    if position == "discriminator_forbid":
+        @dataclass
+        class B(DataClassDictMixin):
+            v: int = 0
+            class Config(BaseConfig):
+                discriminator = Discriminator(field=s, include_subtypes=True)
+                forbid_extra_keys = True
+        A = dataclasses.make_dataclass("A", [("w", int, field(default=1))], bases=(B,), namespace={s: "tag-a"})
+        B._A = A
+        return B
+    if position == "literal_pair":
+        @dataclass
+        class K(DataClassDictMixin):
+            p: Tuple[Literal[s], Literal[s + "'"], Literal[s + '"']]
+        return K
     if position == "literal_str":
         @dataclass
         class K(DataClassDictMixin):
@@ -163,6 +179,29 @@ def behaves(position, s):
                 return "typeddict-read-wrong:%r" % (o.t,)
             if o.to_dict() != {"t": {s: 7}}:
                 return "typeddict-wrote-wrong"
+        elif position == "literal_pair":
+            vals = (s, s + "'", s + '"')
+            o = K(p=vals)
+            d = o.to_dict()
+            if d != {"p": list(vals)}:
+                return "literal-pair-wrote-wrong:%r" % (d,)
+            if K.from_dict(d).p != vals:
+                return "literal-pair-read-wrong"
+            try:
+                K.from_dict({"p": [vals[1], vals[0], vals[2]]})
+                return "literal-pair-accepted-swapped"
+            except InvalidFieldValue:
+                pass
+        elif position == "discriminator_forbid":
+            o = K.from_dict({s: "tag-a", "v": 1, "w": 2})
+            if type(o) is not K._A or o.w != 2:
+                return "variant-wrong:%r" % (o,)
+            try:
+                K._A.from_dict({s: "tag-a", "v": 1, s + "?": 3})
+                return "extra-key-accepted"
+            except ExtraKeysError as e:
+                if set(e.extra_keys) != {s + "?"}:
+                    return "extra-keys-wrong:%r" % (e.extra_keys,)
         elif position == "discriminator_field":
             o = K.from_dict({s: "tag-a", "v": 1, "w": 2})
             if type(o) is not K._A or o.w != 2:
